@@ -229,18 +229,18 @@ def run(rep, repo, tier):
     typestate_check(rep, repo, 'C16.R9', cfgs)
 
 
-def check_helper(rep, repo, helper, N):
+def check_helper(rep, repo, helper, N, r1='C16.R1', r3='C16.R3', r6='C16.R6'):
     """R1 + R6 on the ordering helper with a symbolic list of (arguments, criterion) tuples."""
     it = Interp(repo)
     try:
         effs, rv = it.run(helper, {'opts': S('opts')})
     except Unknown as u:
-        rep.inconclusive('C16.R1', helper.where, 'ordering helper is inside the interpreted fragment', got=str(u))
+        rep.inconclusive(r1, helper.where, 'ordering helper is inside the interpreted fragment', got=str(u))
         return
     where = helper.where
     if not (rv[0] == 'tuple' and len(rv[1]) == 2):
         # accepted alternative: sorted(present, key=position)
-        rep.inconclusive('C16.R1', where, 'ordering helper returns (ordered list, count)', got=show(rv)[:200])
+        rep.inconclusive(r1, where, 'ordering helper returns (ordered list, count)', got=show(rv)[:200])
         return
     kept, cnt = rv[1]
     # count = number of present criteria
@@ -251,7 +251,7 @@ def check_helper(rep, repo, helper, N):
             b = ch[0][0]
             g = ch[0][1]
             okc = g in (NOT(CMP('Eq', I(b, C(0)), NONE)), CMP('NotEq', I(b, C(0)), NONE), NOT(CMP('Is', I(b, C(0)), NONE)), CMP('IsNot', I(b, C(0)), NONE))
-    rep.check(okc, 'C16.R3', where, 'the returned count is the number of criteria whose flag is present (not None)',
+    rep.check(okc, r3, where, 'the returned count is the number of criteria whose flag is present (not None)',
               got=show(cnt)[:200], want='sum(1 for arguments, opt in opts if arguments is not None)', construct='present-count')
     # compaction: [X[i] for i in range(len(X)) if X[i] != sentinel]
     ok = False
@@ -276,17 +276,17 @@ def check_helper(rep, repo, helper, N):
                     ok = True
                     scatter = (X, sent)
     if not ok:
-        rep.fail('C16.R1', where, 'compaction visits the slots in ascending index order and keeps the non-sentinel ones',
+        rep.fail(r1, where, 'compaction visits the slots in ascending index order and keeps the non-sentinel ones',
                  got=show(kept)[:240], want='[slots[i] for i in range(len(slots)) if slots[i] != sentinel]', construct='compaction form')
         return
-    rep.ok('C16.R1', where, 'compaction visits slots ascending and keeps non-sentinel ones', got='[X[i] for i in range(len(X)) if X[i] != %s]' % show(scatter[1]))
+    rep.ok(r1, where, 'compaction visits slots ascending and keeps non-sentinel ones', got='[X[i] for i in range(len(X)) if X[i] != %s]' % show(scatter[1]))
     X, sent = scatter
     if X[0] != 'accum':
-        rep.fail('C16.R1', where, 'slots are filled by a scatter over the criteria', got=show(X)[:200], construct='scatter form')
+        rep.fail(r1, where, 'slots are filled by a scatter over the criteria', got=show(X)[:200], construct='scatter form')
         return
     pre, entries = X[1], X[2]
     want_pre = [BIN('Mult', CALL(S('len'), [S('opts')]), ('list', (sent,))), BIN('Mult', ('list', (sent,)), CALL(S('len'), [S('opts')]))]
-    rep.check(pre in want_pre, 'C16.R1', where, 'one sentinel slot per criterion', got=show(pre), want='len(opts) * [%s]' % show(sent), construct='slot array size')
+    rep.check(pre in want_pre, r1, where, 'one sentinel slot per criterion', got=show(pre), want='len(opts) * [%s]' % show(sent), construct='slot array size')
     seen_list = seen_scalar = False
     for op, idx, val, ch in entries:
         b, g = ch[0]
@@ -296,22 +296,22 @@ def check_helper(rep, repo, helper, N):
         is_scalar = NOT(CALL(S('isinstance'), [args_, S('list')])) in conj
         present = any(c in conj for c in (NOT(CMP('Eq', args_, NONE)), CMP('NotEq', args_, NONE), NOT(CMP('Is', args_, NONE)), CMP('IsNot', args_, NONE)))
         pos = simp(I(args_, C(0))) if is_list else args_
-        rep.check(op == 'setidx' and idx == BIN('Sub', pos, C(1)), 'C16.R1', where,
+        rep.check(op == 'setidx' and idx == BIN('Sub', pos, C(1)), r1, where,
                   'a %s criterion is stored at slot position - 1' % ('list-valued' if is_list else 'scalar'), got='%s[%s]' % (op, show(idx)),
                   want='setidx[%s - 1]' % show(pos), construct='scatter index %s' % show(idx).replace(show(b), 'it'))
-        rep.check(present and (is_list or is_scalar), 'C16.R1', where, 'the scatter covers exactly the present criteria of its kind', got=[show(c) for c in conj],
+        rep.check(present and (is_list or is_scalar), r1, where, 'the scatter covers exactly the present criteria of its kind', got=[show(c) for c in conj],
                   construct='scatter guard')
         if is_list:
             seen_list = True
             want = ('tuple', (opt, ('slice', args_, C(1), NONE)))
-            rep.check(val == want, 'C16.R6', where, 'list-valued flag keeps (criterion, arguments[1:])', got=show(val).replace(show(b), 'it'),
+            rep.check(val == want, r6, where, 'list-valued flag keeps (criterion, arguments[1:])', got=show(val).replace(show(b), 'it'),
                       want='(opt, arguments[1:])', construct='extras of list flag: ' + show(val).replace(show(b), 'it'))
         elif is_scalar:
             seen_scalar = True
             want = ('tuple', (opt, NONE))
-            rep.check(val == want, 'C16.R6', where, 'scalar flag gives (criterion, None)', got=show(val).replace(show(b), 'it'), want='(opt, None)',
+            rep.check(val == want, r6, where, 'scalar flag gives (criterion, None)', got=show(val).replace(show(b), 'it'), want='(opt, None)',
                       construct='extras of scalar flag: ' + show(val).replace(show(b), 'it'))
-    rep.check(seen_list and seen_scalar, 'C16.R1', where, 'both list-valued and scalar flags are scattered', got='list=%s scalar=%s' % (seen_list, seen_scalar),
+    rep.check(seen_list and seen_scalar, r1, where, 'both list-valued and scalar flags are scattered', got='list=%s scalar=%s' % (seen_list, seen_scalar),
               construct='scatter kinds')
 
 
